@@ -46,6 +46,10 @@ enum Case {
     Identifiers { suite: String },
     /// single-signer entry point both ways
     Single { suite: String, count: usize, seed: String },
+    /// the neighbouring signer entry points: re-randomized signing (seed-taking and deprecated) returns exactly
+    /// the RFC share of the independently randomized key material; Taproot tweak sessions (every root kind,
+    /// both key parities) are BIP-340 valid under the BIP-341 output key computed by the Python reference
+    Extras { suite: String, seed: String },
 }
 
 impl Prop for C02 {
@@ -114,6 +118,7 @@ impl Prop for C02 {
             }
             out.push(serde_json::to_value(Case::Identifiers { suite: suite.to_string() }).unwrap());
             out.push(serde_json::to_value(Case::Single { suite: suite.to_string(), count: tier.pick(24, 128), seed: format!("s{seed}") }).unwrap());
+            out.push(serde_json::to_value(Case::Extras { suite: suite.to_string(), seed: format!("s{seed}") }).unwrap());
         }
         out
     }
@@ -136,7 +141,7 @@ impl Prop for C02 {
                 o.class("pin");
                 o
             }
-            Case::Sessions { suite, .. } | Case::Identifiers { suite } | Case::Single { suite, .. } => with_suite!(suite.as_str(), run_case, &c),
+            Case::Sessions { suite, .. } | Case::Identifiers { suite } | Case::Single { suite, .. } | Case::Extras { suite, .. } => with_suite!(suite.as_str(), run_case, &c),
         }
     }
 }
@@ -411,6 +416,82 @@ fn run_case<C: Suite>(c: &Case) -> Outcome {
                 }
             }
             o.class("single");
+        }
+        Case::Extras { seed, .. } => {
+            use frost_rerandomized::RandomizedParams;
+            for (n, t) in [(3u16, 2u16), (4, 3)] {
+                let grp = match cached_group::<C>(KeySrc::Dealer, n, t, IdKind::U16x, seed) {
+                    Ok(g) => g,
+                    Err(e) => {
+                        o.fail(format!("{tag}/setup"), e);
+                        return o;
+                    }
+                };
+                let s: Vec<_> = grp.ids.iter().rev().take(t as usize).rev().copied().collect();
+                let m = message(3);
+                let (nonces, comms) = commit_all::<C>(&grp.kps, &s, &format!("{seed}:extras:{n}"));
+                let pkg = SigningPackage::<C>::new(comms.clone(), &m);
+                let mut rng = ScriptedRng::ctr(format!("{seed}:extras-rr:{n}"));
+                match RandomizedParams::<C>::new_from_commitments(grp.pkp.verifying_key(), &comms, &mut rng) {
+                    Ok((params, sd)) => {
+                        o.eval(true);
+                        super::c17::rr_exactness::<C>(&mut o, &tag, &format!("n={n} t={t}"), &grp.kps, &s, &pkg, &nonces, &params, Some(&sd));
+                    }
+                    Err(e) => o.fail(format!("{tag}/rerandomized-params-failed"), format!("{e:?}")),
+                }
+            }
+            if C::TAPROOT {
+                let mut reqs = vec![];
+                let mut what = vec![];
+                for key_odd in [false, true] {
+                    let grp = match super::c04::group_with_parity::<C>(KeySrc::Dealer, 3, 2, IdKind::Seq, seed, Some(key_odd)) {
+                        Ok(g) => g,
+                        Err(e) => {
+                            o.fail(format!("{tag}/setup"), e);
+                            return o;
+                        }
+                    };
+                    let s: Vec<_> = grp.ids.iter().take(2).copied().collect();
+                    for (rn, root) in [("none", None), ("empty", Some(vec![])), ("32 bytes", Some(vec![0x11u8; 32])), ("100 bytes", Some(vec![0x22u8; 100]))] {
+                        let m = message(4);
+                        let (nonces, comms) = commit_all::<C>(&grp.kps, &s, &format!("{seed}:extras-tr:{key_odd}:{rn}"));
+                        let pkg = SigningPackage::<C>::new(comms, &m);
+                        let mut shares = BTreeMap::new();
+                        for id in &s {
+                            match C::w_sign_with_tweak(&pkg, &nonces[id], &grp.kps[id], root.as_deref()).expect("taproot") {
+                                Ok(sh) => {
+                                    shares.insert(*id, sh);
+                                }
+                                Err(e) => o.fail(format!("{tag}/tweak-sign-refused"), format!("{e:?}")),
+                            }
+                        }
+                        match C::w_aggregate_with_tweak(&pkg, &shares, &grp.pkp, root.as_deref()).expect("taproot") {
+                            Ok(sig) => {
+                                reqs.push(json!({"type": "taproot", "internal": el_hex::<C>(&grp.pkp.verifying_key().to_element()), "root": root.as_ref().map(hex::encode), "msg": hex::encode(&m), "sig": hex::encode(sig.serialize().unwrap())}));
+                                what.push(format!("key_odd={key_odd} root={rn}"));
+                            }
+                            Err(e) => o.fail(format!("{tag}/tweak-aggregate-failed"), format!("key_odd={key_odd} root={rn}: {e:?}")),
+                        }
+                    }
+                }
+                match ask_reference(&reqs) {
+                    Err(e) => o.machinery_error(e),
+                    Ok(ans) => {
+                        for (a, w) in ans.iter().zip(&what) {
+                            if a.get("error").is_some() {
+                                o.machinery_error(format!("reference crashed: {a}"));
+                                continue;
+                            }
+                            o.eval(true);
+                            o.count("taproot_tweak_sessions_vs_reference", 1);
+                            if a["valid"] != json!(true) {
+                                o.fail(format!("{tag}/tweaked-signature-rejected-by-reference"), format!("{w}: not a BIP-340 signature under the BIP-341 output key of (group key, root) computed by the reference"));
+                            }
+                        }
+                    }
+                }
+            }
+            o.class("extras");
         }
         Case::Pin => unreachable!(),
     }
